@@ -305,6 +305,9 @@ func init() {
 			if v, ok := inconclusiveEnd(inc); ok {
 				return v
 			}
+			if len(inc.Sim.InvViol) > 0 {
+				return Viol("temp-dir-not-private", "", "unfinished work of two tasks is not confined to private temp directories: %s", inc.Sim.InvViol[0])
+			}
 			tr := inc.Sim.Shell.Trace
 			for _, sn := range inc.Snaps {
 				c.CrashStates++
@@ -319,15 +322,6 @@ func init() {
 			// final state (after failure or completion)
 			if v := atomicState(inc.Sim.FS.Root, inc.StartFS, ex, doneAt(tr, 1<<30), "after the program ended ("+inc.Sim.End.String()+")"); v.Status != "ok" {
 				return v
-			}
-			if fault != nil && fault.Hit {
-				if completedOK(inc) {
-					return Viol("silent-failure", fault.Mode.String(), "%s, but the workflow program reported completion", what)
-				}
-				return OK()
-			}
-			if fault == nil {
-				return flowOracle(inc, ex)
 			}
 			return OK()
 		}})
@@ -524,6 +518,9 @@ func init() {
 			inc := RunInc(w, c.Tape, nil, 0, IncOpts{KillAt: -1, Strategy: strategyOf(c.Tape), Trace: c.Trace, Snapshots: true})
 			c.Absorb(inc)
 			if v := flowOracle(inc, ex); v.Status != "ok" {
+				if v.Status == "violation" {
+					return Skipped(v) // the uninterrupted run itself is wrong: not this property's business
+				}
 				return v
 			}
 			nested := -1
